@@ -72,8 +72,14 @@ pub struct Config {
 }
 
 pub trait Engine: Sync + Send {
+    /// Every check runs under two builds of coset: without the `std` cargo feature (all run
+    /// indices) and with it (the first quarter of the run indices again, executed by the second
+    /// harness binary).
     fn configurations(&self) -> Vec<Config> {
-        vec![Config { name: "default", exe: None, share: (1, 1) }]
+        vec![
+            Config { name: "std:off", exe: None, share: (1, 1) },
+            Config { name: "std:on", exe: Some(std_exe()), share: (1, 4) },
+        ]
     }
     fn id(&self) -> &'static str;
     fn info(&self) -> EngineInfo;
@@ -119,4 +125,11 @@ pub trait Engine: Sync + Send {
     fn sample_runs(&self) -> u64 {
         3
     }
+}
+
+/// Path of the harness binary built with coset's `std` feature (COSIM_STD_EXE overrides it, for
+/// sweeps that run from a private copy of the binaries).
+pub fn std_exe() -> &'static str {
+    static P: std::sync::OnceLock<String> = std::sync::OnceLock::new();
+    P.get_or_init(|| std::env::var("COSIM_STD_EXE").unwrap_or_else(|_| "/verif/target/std/release/cosim".to_string()))
 }
